@@ -31,6 +31,7 @@ type SpecCtx struct {
 	atLoop   *ssa.BasicBlock
 	calleeFn *ssa.Function
 	depth    int
+	pos      token.Pos // source position the expression is evaluated at (scoping of local names); NoPos = end of function
 }
 
 func (vc *VC) specCtx(fr *Frame, n *Node, env Env) *SpecCtx {
@@ -191,8 +192,10 @@ func (sc *SpecCtx) lookupLocal(name string) (Val, bool) {
 		if !ok || al.Comment != name {
 			continue
 		}
+		if sc.pos.IsValid() && al.Pos() > sc.pos {
+			continue // declared after the point of evaluation
+		}
 		if best == nil || al.Pos() > best.Pos() {
-			// prefer a declaration that precedes the loop position if known
 			best = al
 		}
 	}
@@ -368,6 +371,15 @@ func (sc *SpecCtx) evalIdent(name string) (Val, error) {
 	}
 	if name == "nil" {
 		return Val{T: "nil", Sort: "Nil"}, nil
+	}
+	if g, ok := vc.p.ghostGlobals[name]; ok {
+		ty, srt, err := sc.resolveType(g.Type)
+		if err != nil {
+			return Val{}, err
+		}
+		sv := "GG$" + name
+		vc.svar(sv, srt, ty)
+		return Val{Ty: ty, Sort: srt, LV: &LVal{kind: lvGlobal, sv: sv, typ: ty}}, nil
 	}
 	if sc.atLoop != nil || sc.fr != nil {
 		if v, ok := sc.lookupLocal(name); ok {
